@@ -29,6 +29,7 @@ import sys
 import time
 import traceback
 
+sys.set_int_max_str_digits(0)
 VERIF = os.path.dirname(os.path.dirname(os.path.abspath(__file__)))
 REPO = os.path.realpath(os.environ.get('BSMC_REPO', '/repo'))
 PY = sys.executable
@@ -262,10 +263,13 @@ class Acc:
 def _j(x):
     """Make a value JSON-able for artefacts."""
     try:
-        json.dumps(x)
+        t = json.dumps(x)
+        if len(t) > 4000:
+            return t[:2000] + f'...<{len(t)} chars>'
         return x
     except (TypeError, ValueError):
-        return repr(x)
+        r = repr(x)
+        return r if len(r) < 4000 else r[:2000] + f'...<{len(r)} chars>'
 
 
 # ------------------------------------------------------------------------------------------
@@ -333,6 +337,7 @@ def run_snippet(snippet, timeout=120):
     env['PYTHONPATH'] = REPO
     env['PYTHONDONTWRITEBYTECODE'] = '1'
     env['PYTHONHASHSEED'] = '0'
+    env['PYTHONINTMAXSTRDIGITS'] = '0'
     env[GUARD] = '1'
     try:
         r = subprocess.run([PY, '-c', snippet], env=env, capture_output=True, text=True, timeout=timeout,
